@@ -33,6 +33,7 @@ type RuleInfo struct {
 }
 
 type Report struct {
+	remap map[string]string // while set: only these rule ids are recorded, under the mapped id
 	Prop      string
 	Tier      string
 	Level     string
@@ -56,6 +57,13 @@ func NewReport(prop, tier string) *Report {
 // Rule declares a rule with its anti-vacuity floor (instances confirmed by
 // reading the pinned tree).
 func (r *Report) Rule(id, text string, floor int) {
+	if r.remap != nil {
+		to, ok := r.remap[id]
+		if !ok {
+			return
+		}
+		id = to
+	}
 	if _, ok := r.ruleIdx[id]; ok {
 		return
 	}
@@ -65,6 +73,14 @@ func (r *Report) Rule(id, text string, floor int) {
 }
 
 func (r *Report) add(o *Obligation) *Obligation {
+	// a rule shared into another property under another id: obligations of the other rules of the donor are dropped
+	if r.remap != nil {
+		to, ok := r.remap[o.Rule]
+		if !ok {
+			return o
+		}
+		o.Rule = to
+	}
 	if _, ok := r.ruleIdx[o.Rule]; !ok {
 		r.Rule(o.Rule, "", 0)
 	}
